@@ -10,7 +10,7 @@ REL = {'r01': "C01 C02 C03 C04 C05 C06 C09 C12 C14 C17", 'r02': "C01 C02 C03 C05
        'r05': "C03 C06 C07 C08 C09 C10 C11 C12 C13 C14 C17", 'r06': "C08 C13 C14 C15 C16", 'r07': "C08 C13 C14 C15",
        'r08': "C05 C09 C10 C11 C12 C17", 'r09': "C05 C09 C10 C12 C17", 'r10': "C01 C04 C05 C09 C10 C12 C17 C18 C20",
        'r11': "C01 C02 C03 C04 C06 C07 C11 C19", 'r12': "C16"}
-base = name.split('-')[0].rstrip('b')
+base = name.split('-')[0].rstrip('bc')
 checks = ['C%02d' % i for i in range(1, 21)] if os.environ.get('ALL') else REL[base].split()
 WT = '/tmp/wt-refac-%s' % name.lower()
 sh = lambda c: subprocess.run(c, shell=True, stdout=subprocess.PIPE, stderr=subprocess.STDOUT, text=True)
